@@ -12,6 +12,8 @@ def run(rep, W, ctx):
     S.s_txn1(rep, W, W.op("get_child_version"))
     S.s_txn1(rep, W, W.op("add_version"))
     S.c08(rep, W)
+    S.s_sql_closed(rep, W)
+    S.c01_key(rep, W)                # "returns the child of p if one exists": a version is stored under, and looked up by, the parent it was submitted with
     S.s_uuidcodec(rep, W)            # the SQLite child lookup `parent_version_id = ?` matches exactly the stored parent, nil included
     H.c14_tables(rep, W, modules=("get_child_version",))   # found / 404 / 410 and "never seen -> 404" as answered over HTTP
     H.route_params_plain(rep, W)     # the two endpoints take the parent id from the URL the same way: no route pattern narrows one of them
